@@ -282,10 +282,82 @@ class IndexTyper:
                         self._record(n, c.func, "arg", POS_CALLS[call_name(c)][1], self.dom(self.ex(c.args[0], n)), c)
         return self.results
 
+    # -- order provenance of positional containers built locally --------------------------------------------------------------
+    REORDER = ("sorted", "reversed", "_sort_fn", "shuffle", "permutation", "sample", "argsort")
+    KEEP_ORDER_CALLS = ("list", "tuple", "deque", "array", "asarray", "copy", "deepcopy", "expand_max_min_rates", "enumerate", "iter")
+    ELEMENTWISE = ("minimum", "maximum", "abs", "clip", "where", "floor", "ceil", "round")
+
+    def order_of(self, e, depth=0):
+        """(base, reorderings) of the sequence / array expression e: the sequence whose element order e's positions follow and the
+        tuple of re-ordering calls applied on the way; None when unknown.  `[f(x) for x in X]`, `np.minimum(A[L], c)`, `list(X)`,
+        `A[L]` (fancy index by a list aligned with L) keep the order of X / L; sorted(X) / reversed(X) / the sort function start a new one."""
+        if depth > 12 or e is None:
+            return None
+        if isinstance(e, (ast.ListComp, ast.GeneratorExp)) and len(e.generators) == 1 and not e.generators[0].ifs:
+            return self.order_of(e.generators[0].iter, depth + 1)
+        if isinstance(e, ast.Call):
+            nm = call_name(e)
+            if nm in self.REORDER and e.args:
+                inner = self.order_of(e.args[0], depth + 1)
+                if inner is None:
+                    return None
+                return (inner[0], inner[1] + (canon(e)[:160],))
+            if nm in self.KEEP_ORDER_CALLS and (e.args or isinstance(e.func, ast.Attribute)):
+                return self.order_of(e.args[0] if e.args else e.func.value, depth + 1)
+            if nm in self.ELEMENTWISE and e.args:
+                for a in e.args:
+                    o = self.order_of(a, depth + 1)
+                    if o is not None:
+                        return o
+                return None
+            if nm == "__phi__":
+                os_ = {self.order_of(a, depth + 1) for a in e.args}
+                return os_.pop() if len(os_) == 1 else None
+            return None
+        if isinstance(e, ast.BinOp):
+            for a in (e.left, e.right):
+                o = self.order_of(a, depth + 1)
+                if o is not None:
+                    return o
+            return None
+        if isinstance(e, ast.Subscript):
+            sl = e.slice
+            if isinstance(sl, (ast.List, ast.ListComp, ast.Name, ast.Attribute)) or (isinstance(sl, ast.Call) and call_name(sl) in self.KEEP_ORDER_CALLS + self.REORDER):
+                if isinstance(sl, (ast.Name, ast.Attribute)):
+                    return None            # scalar index or unknown index array
+                return self.order_of(sl, depth + 1)
+            return None
+        d = dotted(e)
+        if d is not None and last_name(e) in SESSION_LISTS:
+            return (d, ())
+        return None
+
+    def _order_check(self, c, n):
+        """C[i] where C is a locally built positional container and i counts positions of a sequence S: both must follow the same
+        order of the same underlying sequence (a vector computed in the order of the session list indexed by the position in the
+        *sorted* queue pairs every session with another session's value whenever the two orders differ)"""
+        if isinstance(c.slice, (ast.Tuple, ast.Slice)):
+            return
+        ixx = self.ex(c.slice, n)
+        if not (isinstance(ixx, ast.Call) and call_name(ixx) == "__idx__" and ixx.args):
+            return
+        oc = self.order_of(self.ex(c.value, n))
+        oi = self.order_of(ixx.args[0])
+        if oc is None or oi is None or oc[0] != oi[0]:
+            return
+        if oc == oi:
+            self.results.append((n, src(c.value, 40), 0, "POS(" + oi[0] + ")", "POS(" + oi[0] + ")", c, "ok"))
+        else:
+            def show(o):
+                return o[1][-1] if o[1] else o[0]
+            self.results.append((n, src(c.value, 40), 0, f"position in `{show(oc)[:60]}`", f"position in `{show(oi)[:60]}`", c, "mismatch"))
+
     def _subscript(self, c, n):
         fl = self.fl
         ax = self.cont_axes(c.value, n)
         if not ax:
+            if isinstance(c.ctx, ast.Load):
+                self._order_check(c, n)
             return
         idx = list(c.slice.elts) if isinstance(c.slice, ast.Tuple) else [c.slice]
         for k, ix in enumerate(idx):
